@@ -458,6 +458,13 @@ func account(c Case, st stats, key uint64) {
 	if st.storedUnconf {
 		harness.Label("cut_in_confirm_window(stored-but-unconfirmed)")
 	}
+	for _, side := range []scen.Side{c.Sc.A, c.Sc.B} {
+		for _, q := range side.Queue {
+			if q.Tuned != "" {
+				harness.Label("has-message-on-block-boundary:" + q.Tuned)
+			}
+		}
+	}
 	if c.DirBox {
 		harness.Label("dirhandler")
 	} else {
@@ -505,6 +512,23 @@ func genScenario(t *rapid.T, dirbox bool) scen.Scenario {
 	}
 	trim(&sc.A, sc.B.Call)
 	trim(&sc.B, sc.A.Call)
+	// the trimming above undoes any size tuning of the message generator; so in two of three scenarios one
+	// message is padded (after trimming) until its compressed size sits exactly on a block boundary of the
+	// sender (a multiple of 125 bytes, or one more / one less)
+	for _, side := range []*scen.Side{&sc.A, &sc.B} {
+		for i := range side.Queue {
+			side.Queue[i].Tuned = ""
+		}
+	}
+	if k := rapid.IntRange(0, 5).Draw(t, "block_boundary"); k < 4 && !sc.Gzip {
+		side := &sc.A
+		if (k%2 == 1 || len(sc.A.Queue) == 0) && len(sc.B.Queue) > 0 {
+			side = &sc.B
+		}
+		if len(side.Queue) > 0 {
+			side.Queue[rapid.IntRange(0, len(side.Queue)-1).Draw(t, "tuned_msg")].Tune(125, []int{0, 0, 1, 124}[k])
+		}
+	}
 	if dirbox {
 		sc.A.Batched, sc.B.Batched = false, false
 	}
